@@ -332,6 +332,17 @@ def generator_stages(repo: Repo, run: Run, interp) -> None:
 
 
 def check(repo: Repo, run: Run) -> None:
+    from .. import shared
+    found, n_m = shared.kept_mutable_defaults(repo)
+    mine = [f for f in found if f.cls == "PyKdebugParser" and f.attr.startswith("filter_")]
+    run.ob("R6", "pykdebugparser.pykdebugparser", "PyKdebugParser", "every parser object has its own filter settings", not mine,
+           "" if not mine else
+           f"PyKdebugParser.{mine[0].method} keeps the default object of its parameter `{mine[0].param}` (a mutable container, created "
+           f"once) as self.{mine[0].attr}: every parser built without that argument holds the same object, so a filter one of them "
+           f"grows in place is applied by all of them - a parser with no filter requested lists a subset",
+           line=mine[0].lineno if mine else None, nontrivial=bool(mine),
+           witness="two PyKdebugParser() objects; the first does filter_class.append(4); the second lists a dump")
+    run.floor("R6", "methods scanned for kept mutable defaults", n_m, 300)
     interp = sym.Interp(repo)
     generator_stages(repo, run, interp)
     analyse_residue(repo, run, interp)
